@@ -4,8 +4,10 @@
 import json, os, shutil, subprocess, sys
 ROOT = os.path.dirname(os.path.dirname(os.path.abspath(__file__)))
 pid, var = sys.argv[1], sys.argv[2]
-extra = sys.argv[3:]
-src = f"/tmp/mutout_{pid}/{var}"
+extra = [a for a in sys.argv[3:] if a != "round2"]
+round2 = "round2" in sys.argv[3:]
+src = f"/tmp/mutout2_{pid}/{var}" if round2 else f"/tmp/mutout_{pid}/{var}"
+label = pid + ({"a": "c", "b": "d"}[var] if round2 else var)
 wt = f"/tmp/mut_{pid}"
 patch = os.path.join(src, "patch.diff")
 ran = []
@@ -41,7 +43,7 @@ last = [l for l in m.stdout.splitlines() if l.startswith("{")]
 detected = json.loads(last[-1])["detected_by"] if last else []
 ran.append(f"tools/mutant.py (git -C /repo apply; quick checks {[pid] + extra}; git checkout): detected by {detected}")
 valid = tests_ok and (demo_with is None or (any(c != 0 for c in demo_with) and all(c == 0 for c in demo_without)))
-out = os.path.join(ROOT, "seeded", f"{pid}{var}")
+out = os.path.join(ROOT, "seeded", label)
 if valid:
     os.makedirs(out, exist_ok=True)
     shutil.copy(patch, os.path.join(out, "patch.diff"))
@@ -53,4 +55,4 @@ if valid:
             "what_was_run": ran, "detected_by_quick_checks": detected,
             "sample_violation": [l for l in m.stdout.splitlines() if l.strip().startswith("{\"profile\"")][:1]}
     json.dump(meta, open(os.path.join(out, "meta.json"), "w"), indent=1)
-print(json.dumps({"id": pid + var, "valid": valid, "tests_ok": tests_ok, "demo_with": demo_with, "demo_without": demo_without, "detected": detected}))
+print(json.dumps({"id": label, "valid": valid, "tests_ok": tests_ok, "demo_with": demo_with, "demo_without": demo_without, "detected": detected}))
